@@ -169,6 +169,12 @@ func intrinsics() map[string]intrinsic {
 	m["internal/bytealg.Equal"] = func(st *State, fn *ssa.Function, args []Value) Value {
 		return st.strEq(Agg{args[0].(Agg)[0], args[0].(Agg)[1]}, Agg{args[1].(Agg)[0], args[1].(Agg)[1]})
 	}
+	m["internal/bytealg.MakeNoZero"] = func(st *State, fn *ssa.Function, args []Value) Value {
+		n := st.concreteInt(tm(args[0]), "MakeNoZero length")
+		p := st.alloc(n, "makenozero")
+		k := st.c.Const(uint64(n), 64)
+		return Agg{p, k, k}
+	}
 	m["internal/bytealg.IndexByte"] = indexByte
 	m["internal/bytealg.IndexByteString"] = indexByte
 	// ---- fmt / errors used only to build error values
@@ -809,6 +815,8 @@ func (st *State) verifrtCall(fn *ssa.Function, args []Value) (Value, bool) {
 			st.tables[o.id] = &tableSummary{es: es, cnt: cnt, f: args[4]}
 		}
 		return c.Bool(okAll), true
+	case "Track":
+		return nil, true
 	case "SameObject":
 		a, b := tm(args[1]), tm(args[2])
 		ka, _ := st.splitAddr(a)
